@@ -64,6 +64,7 @@ def gen_case(rng, fmt=None):
             k = stack.pop(); ops.append('ex %d' % k); ops.append('cl %d' % k)
         elif r < 0.82: ops.append('pe %d %d' % (rng.randrange(1, 6), rng.randrange(0, 3)))
         elif r < 0.88: ops.append('mt %d %d' % (rng.randrange(1, 9), rng.randrange(1, 5)))
+        elif r < 0.93: ops.append('ne %d %d %d %d' % (rng.randrange(1, 6), rng.randrange(0, 3), rng.randrange(1, 6), rng.randrange(0, 3)))
     while stack:
         k = stack.pop(); ops.append('ex %d' % k); ops.append('cl %d' % k)
     ops.append('ev 3 0 %s' % gen_fields(rng))
@@ -120,6 +121,7 @@ def judge(case, out):
         for text in texts:
             if not text.endswith('\n'): return 'bad record-not-newline-terminated'
             if fmt != 'pretty' and text.count('\n') != 1: return 'bad record-spans-%d-lines' % text.count('\n')
+            if t[0] == 'ne': continue      # two complete records (the nested one first); which sinks: the specification
             if t[0] == 'mt': 
                 if fmt != 'pretty' and not ('seq' in text and 'thread' in text): return 'bad interleaved-or-truncated-record'
                 continue
@@ -198,10 +200,10 @@ PROPERTY = {
     'namespace': 'C13',
     'units': ['WriterRouting'],
     'required_theorems': ['C13.table_facts', 'C13.on_event_facts', 'C13.routes_denote', 'C13.one_write_per_record', 'C13.no_duplicate_delivery',
-                          'C13.history_routes', 'C13.history_exact_per_sink', 'C13.history_silent_sink'],
+                          'C13.busy_buffer_fact', 'C13.nested_record_not_lost', 'C13.history_routes', 'C13.history_exact_per_sink', 'C13.history_silent_sink'],
     'streams': [_s],
     'rule': 'one case = a formatter (full/compact/pretty/json) with random options (target, level, thread id/name, file/line, span events mask, json span/list/flatten), a writer expression of depth <=3 over recording sinks '
-            '(with_max_level, with_min_level, with_filter, and, or_else, boxed), and 5-18 ops: events at any level/target with 0-3 typed fields, nested spans with fields (new/enter/exit/close records per mask), an event whose '
+            '(with_max_level, with_min_level, with_filter, and, or_else, boxed), and 5-18 ops: events at any level/target with 0-3 typed fields, nested spans with fields (new/enter/exit/close records per mask), an event with a value whose Debug impl records another event through the same dispatcher while the outer one is being formatted (ne), an event whose '
             'Debug impl panics (caught), concurrent emission from 1-8 threads; compared = per op the sinks\' call log (make_writer_for arguments, make_writer calls, number of write calls); judged = the text of every write. '
             'non-trivial = a composite expression, something written and some event routed nowhere',
     'trusted_base': ['translator unit WriterRouting', 'hand-written interpreter Core/Writers.lean', 'executor h_fmt (real fmt subscriber, BoxMakeWriter-built expressions, synthetic metadata)', 'python judge of record text'],
